@@ -134,6 +134,39 @@ pub fn c18(ctx: &Ctx, subj: &dyn DynSubject, ty: &Ty, rep: &mut Report) {
         }
         log.classes.push(format!("rows-{}", if n < 16 { "lt16" } else if n < 64 { "lt64" } else { "ge64" }));
         log.sample = Some(sample_json(subj, v, Some(&a), json!({"rows": n, "padding_rows": n_pad, "first_rows": rows.iter().take(12).map(|r| json!([r.field, r.offset, r.size, r.align])).collect::<Vec<_>>() })));
+        // (e) the same through the lower-level API, on a writer that has already written something: the bytes must
+        // be those of plain serialization on such a writer, and the rows must describe them where they are
+        for plen in [3usize, 8, 13] {
+            let prefix = vec![0xC3u8; plen];
+            let mut with: Vec<u8> = Vec::new();
+            let mut without: Vec<u8> = Vec::new();
+            log.extra_evals += 1;
+            let rs = guard(|| subj.ser_after_prefix(v, &prefix, true, &mut with));
+            let rp = guard(|| subj.ser_after_prefix(v, &prefix, false, &mut without));
+            let (Ok(Ok(Some(sch))), Ok(Ok(None))) = (rs, rp) else {
+                return Err(Fail::new("schema-after-prefix-failed", format!("serializing after a {}-byte prefix on the same writer failed or panicked", plen)).env(json!({"prefix": plen})));
+            };
+            // padding inside zero-copy structs is uninitialised: compare lengths, and contents outside blocks
+            if with.len() != without.len() || with[..plen] != without[..plen] {
+                return Err(Fail::new("schema-after-prefix-bytes", format!("after a {}-byte prefix, recording the schema wrote {} bytes, plain serialization {}", plen, with.len(), without.len())).env(json!({"prefix": plen})));
+            }
+            let mut cur = plen;
+            for (i, r) in sch.0.iter().enumerate() {
+                if r.offset != cur {
+                    return Err(Fail::new("schema-after-prefix-rows", format!("after a {}-byte prefix, row {} ({}) is recorded at {}, the bytes it describes start at {}", plen, i, r.field, r.offset, cur)).env(json!({"prefix": plen})));
+                }
+                let is_leaf = r.field == "PADDING" || !sch.0[i + 1..].iter().find(|x| x.field != "PADDING").map_or(false, |x| x.field.len() > r.field.len() && x.field.starts_with(&r.field) && x.field.as_bytes()[r.field.len()] == b'.');
+                if is_leaf {
+                    cur += r.size;
+                }
+                if r.field == "PADDING" && with[r.offset..(r.offset + r.size).min(with.len())].iter().any(|b| *b != 0) {
+                    return Err(Fail::new("schema-after-prefix-rows", format!("after a {}-byte prefix, padding row {} covers non-zero bytes", plen, i)).env(json!({"prefix": plen})));
+                }
+            }
+            if cur != with.len() {
+                return Err(Fail::new("schema-after-prefix-rows", format!("after a {}-byte prefix, the rows cover up to {} of {} bytes", plen, cur, with.len())).env(json!({"prefix": plen})));
+            }
+        }
         // (d) renderings
         match guard(|| (schema.to_csv(), schema.debug(&a))) {
             Err(p) => return Err(Fail::new(&format!("schema-render-panic:{}", panic_class(&p)), format!("rendering the schema panicked: {}", p))),
